@@ -1,4 +1,4 @@
 SPECIFICATION Spec
 CONSTANTS FullLimit = 7
-INVARIANTS RoundTrip Unambiguous Gating AnnotationsPinned SetVersionFirst
+INVARIANTS RoundTrip Unambiguous Gating AnnotationsPinned TagsPinned SetVersionFirst
 CHECK_DEADLOCK FALSE
